@@ -14,7 +14,10 @@ RULE = ("A generated site (depth <= 3; real dirs, gophermaps, mbox, Maildir, HTM
         "as local is re-requested exactly as rendered, must be answered with success and with the kind (menu/document) "
         "its Gopher type advertises, documents with known bytes must arrive intact, and the set of objects reached must "
         "equal the set the site description says exists. Non-trivial: a followed link whose selector has a byte "
-        "outside [A-Za-z0-9/._-], is virtual (|...) or crosses into a ZIP; distinct = (site hash, protocol).")
+        "outside [A-Za-z0-9/._-], is virtual (|...) or crosses into a ZIP; distinct = (site hash, protocol). With the directory "
+        "cache on, half of the crawls own a schedule point: while a listing request writes the cache file a second request for the "
+        "same listing is served, and what it shows is followed too. Enumerated: a crawl inside a real chroot, and three crawls of a "
+        "fixed site under handler lists that leave handlers out (counted under 'other-handler-lists').")
 ASSUMPTIONS = [
     "reserved top-level namespaces (URL:, /wap, one-character names with the full list) are not generated as names; the "
     "virtual-argument separators ? and | in the paths of mailboxes/scripts are generated in a dedicated flavour only, "
